@@ -228,6 +228,38 @@ def run(ctx) -> Result:
                 "delete_self}, cut into read batches at random points, inter-batch gaps in {0,1,d-1,d,d+1} units, optional "
                 "close(); seeded random schedules with clock ticks (quick) / all schedules with <= 2 pre-emptions (thorough, "
                 "small sequences); non-trivial = a pair or a lone FROM was delivered or a cross-read remove() succeeded")
+    # (runs FIRST: the gated driver needs the real threading module, the scheduler twins are installed afterwards)
+    # the reader between the kernel and the buffer: every record read is handed on (real kernel, gated threads, lock-step
+    # with the Pipeline model; shared with C01) - arrivals renamed/removed before anybody looked, file churn with read cuts
+    from harness import pipe, pipecheck
+    prng = ctx.rng("reader")
+    pbatch = []
+    for i in range(24 if not ctx.thorough else 300):
+        hist = pipe.gen_history_arrivals(prng, n=prng.randint(1, 3)) if i % 2 == 0 else pipe.gen_history_filechurn(prng, n_ops=prng.randint(4, 10))
+        cfg = pipecheck.CONFIGS[i % len(pipecheck.CONFIGS)]
+        run_, case_, stopped_, _ = pipecheck.execute(hist, cfg, None, lambda r: r.drain())
+        res.evaluations += 1
+        res.hist("reader_level_histories", "arrivals" if i % 2 == 0 else "filechurn")
+        meta_ = pipecheck.meta_of(hist, cfg)
+        res.failures += pipecheck.thread_failures(run_, stopped_, meta_, "C08")
+        if i % 2 == 0:
+            # histories without read cuts: both halves of every rename inside the tree are read together, so the rename
+            # must arrive as ONE moved event carrying both paths (pairing law at the level of the whole reader)
+            import os
+            evs_ = [e for ent in run_.log if ent["a"] == "emit" for e in ent["events"]]
+            for ent in run_.log:
+                if ent["a"] == "op" and ent["ok"] and ent["kind"] == "rename" and ent["path"][0] == "R" and ent["path2"][0] == "R" \
+                        and (run_.recursive or (len(ent["path"]) == 2 and len(ent["path2"]) == 2)):
+                    if not any(e[0].endswith("Moved") and e[1] == ent["p"] and e[2] == ent["q"] for e in evs_):
+                        res.failures.append(Failure(
+                            what=f"rename {'/'.join(ent['path'])} -> {'/'.join(ent['path2'])} inside the watched tree, both halves in one "
+                                 "read, was not delivered as one moved event", case=meta_,
+                            signature={"law": "reader-pairing", "dir": bool(ent["was_dir"])},
+                            observed=pipecheck.printable([e for e in evs_ if ent["p"] in (e[1], e[2]) or ent["q"] in (e[1], e[2])]),
+                            expected="Moved(src, dest)"))
+                        break
+        pbatch.append((meta_, run_, case_))
+    pipecheck.check_model(res, "C08", pbatch)
     cases, metas = [], []
     buffer_campaign(ctx, res, cases, metas, 400 if not ctx.thorough else 3000)
     if ctx.thorough:
@@ -260,6 +292,9 @@ def replay(ctx, obj) -> int:
     from harness import detsched as ds
     from harness import dqprog
     case = obj.get("case", obj)
+    if isinstance(case, dict) and "history" in case:
+        from harness.props import c01
+        return c01.replay(ctx, obj)
     if isinstance(case, dict) and case.get("codec") == "inotify" or "program" not in case:
         from harness.props import c20
         return c20.replay(ctx, obj)
